@@ -104,6 +104,18 @@ CLAIMED = {
         "Seam: leptos_i18n_build::TranslationsInfos linked natively (parser built with `quote` as in a user's host build). The provider generation itself (DatagenProvider::new_latest_tested) needs a CLDR download and is not run: the request is what is checked.",
         "DESIGN.md §3 C20",
     ),
+    "C02": (
+        "exhaustive enumeration of accessor flavours x scoping prefixes x locales x counts over a project holding every key kind, executed in generated probe crates against the reference renderer",
+        "A project with one key of every kind at depth 1 and 3 in two namespaces and three locales (inheritance, explicit nulls, gaps) is compiled through the real proc-macro; every key is read through td/t/tu x view/string/display, through scope_locale!/scope_i18n! at every proper prefix (one step and chained) and use_i18n_scoped!, and the const accessor chain, with counts {0,1,2,5}; every record must equal the reference rendering, hence all flavours agree.",
+        "Seam L3: only documented macros inside the probe; context flavours run on a natively created I18nContext (ssr). Quick tier thins view flavours under scoping.",
+        "DESIGN.md §3 C02",
+    ),
+    "C13": (
+        "exhaustive near-miss string sweep per locale set inside generated probe crates, against configured names and direct ICU4X queries",
+        "For 8 (thorough 10) locale sets with regions, scripts, variants, near-duplicates and RTL languages, default listed first / last / not at all, the generated enum is checked inside a probe crate: get_all, every string representation, ICU locale / language identifier, CLDR direction, ScopedLocale forwarding, and FromStr / cookie codec / serde over all case flips, prefixes, suffixes, one-character edits, whitespace and separator variants and all strings of length <= 4 over the names' letters.",
+        "Seam L3. ICU4X data is the trusted base for canonical identifiers and directionality. Surrounding whitespace may be accepted or refused (never another locale).",
+        "DESIGN.md §3 C13",
+    ),
 }
 
 NOT_YET = "check not built yet in this round (design in DESIGN.md §3); no claim is made"
